@@ -1862,6 +1862,22 @@ def _(I, a):
 
 def vec_extend(I, a):
     v = deref(a[0])
+    if isinstance(v, MapObj):
+        it = as_iter(I, a[1])
+        while True:
+            x = it_next(I, it)
+            if x is None:
+                return Agg()
+            x = deref(x)
+            map_insert(I, v, x[0], x[1])
+    if isinstance(v, SetObj):
+        it = as_iter(I, a[1])
+        while True:
+            x = it_next(I, it)
+            if x is None:
+                return Agg()
+            if not any(I.branch(val_eq(I, kk, x)) for kk in v.items):
+                v.items.append(x)
     if isinstance(v, StringObj):
         it = as_iter(I, a[1])
         while True:
@@ -2351,9 +2367,19 @@ EXACT['<std::rc::Rc as std::clone::Clone>::clone'] = lambda I, a: deref(a[0])
 EXACT['std::rc::Rc::clone'] = lambda I, a: deref(a[0])
 
 
-@model('std::collections::HashMap::new')
+@model('std::collections::HashMap::new', 'std::collections::HashMap::with_capacity')
 def _(I, a):
     return MapObj()
+
+
+def map_insert(I, m, k, v):
+    for ent in m.items:
+        if I.branch(val_eq(I, ent[0], k)):
+            old = ent[1]
+            ent[1] = v
+            return some(old)
+    m.items.append([k, v])
+    return NONE()
 
 
 @model('std::collections::HashMap::insert')
@@ -2386,7 +2412,7 @@ def _(I, a):
     return False
 
 
-@model('std::collections::HashSet::new')
+@model('std::collections::HashSet::new', 'std::collections::HashSet::with_capacity')
 def _(I, a):
     return SetObj([])
 
